@@ -87,9 +87,11 @@ CHECKS = {
             "DESIGN.md 4/C07"),
     "C10": ("stateful property-based testing (Hypothesis RuleBasedStateMachine) against a reference model = fresh "
             "object performing only the last build and solve",
-            "Generated-history exploration: up to 12 API calls (build_force_matrix / solve_stress / "
-            "build_pressure_matrix / solve_pressure / get_system_velocity_per_frame) over the frames of a generated "
-            "series, any frame order, any mix of back-ends, b_matrix modes, fits, angle limits; after every solve "
+            "Generated-history exploration: up to 18 API calls (build_force_matrix / solve_stress / "
+            "build_pressure_matrix / solve_pressure / get_system_velocity_per_frame / Frame.filter_edges / a second "
+            "ForSys object over the used frames) over the frames of a generated series (arc tissues and brick "
+            "lattices with exact T-junctions), any frame order, any mix of back-ends, b_matrix modes, fits, angle "
+            "limits, documented defaults left out as drawn; after every solve "
             "and pressure solve the observable results are compared with a fresh object; structural invariants "
             "(stores keyed by frame, interface and mesh-edge tensions, table ids) after every step; a step that "
             "crashes only after the history (not on a fresh object) is a violation.",
@@ -136,15 +138,19 @@ CHECKS = {
             "Exploration with an exhaustive core: all 2^n cell subsets (n<=10) of several base tissues and lattices, "
             "plus random subsets of tissues up to 60 cells and resampled meshes; Frame's interface list and the three "
             "copies of the internal/external predicate are compared with a reference decomposition that walks the "
-            "raw mesh multigraph and a cell-count predicate; table ids and lookup-by-cells checked.",
+            "raw mesh multigraph and a cell-count predicate; table ids (inferred, reference and full table) and "
+            "lookup-by-cells checked; meshes built by every parser; an exhaustively enumerated family of tissues with a "
+            "two-junction cell.",
             "Trusted: the reference walk (refdecomp.py, ~80 lines). Two-point notch edges are ambiguous by the "
-            "statement (not asserted to separate two cells). Exhaustive only for the enumerated base tissues.",
+            "statement (not asserted to separate two cells). Exhaustive only for the enumerated base tissues. Known "
+            "finding D29 (third owner of a one-edge interface next to a two-junction cell) is counted, not flagged.",
             "DESIGN.md 4/C08"),
     "C09": ("property-based testing (Hypothesis): generated construction paths x operation sequences, invariant after "
             "every step",
             "Generated-history exploration: a mesh is built through one of six construction paths (direct, Surface "
             "Evolver dump via the independent serialiser, WKT text, Voronoi tessellation, shipped skeleton images, "
-            "synthetic skeleton rasters) and then driven through up to 6 operations (generate_mesh with drawn ne and "
+            "synthetic skeleton rasters - thinned, raw, or strongly irregular; lattices also requested a second time "
+            "from the same parser object) and then driven through up to 6 operations (generate_mesh with drawn ne and "
             "replace_short_edges, Frame construction, gc.collect); after each step all back references are recomputed "
             "from scratch by object identity.",
             "Trusted: meshcheck.py (the invariant). SegmentationArtifactException ends a sequence (documented "
